@@ -32,6 +32,14 @@
 //!    Txt, Null, Opt, SvcParams against `from_octets` and an independent
 //!    validity predicate; 65536 octets into the length-checking parsers.
 //!
+//! 6. HOLDERS: every value through every way of holding it when the record
+//!    data traits run: T / &T / &&T (blanket impls for references), inside
+//!    Record<N,D> / Record<&N,&D> / &Record, inside the ComposeRecord tuples
+//!    and their From conversions, D by value and by reference, for T = both
+//!    enums, the concrete type, the parsed (borrowing) enum, unsized
+//!    Opt<[u8]>; each route must agree with the direct call and with the
+//!    expected canonical form.
+//!
 //! Oracle per value v: compose_rdata(v) == reference; rdlen == octets
 //! written; parse(compose(v)) == v (stand-alone parser and through whole
 //! messages built on a plain target and on the three compressing targets,
@@ -136,6 +144,9 @@ struct Local {
 impl Local {
     fn inc(&mut self, k: impl Into<String>) {
         *self.c.entry(k.into()).or_insert(0) += 1;
+    }
+    fn add(&mut self, k: impl Into<String>, n: u64) {
+        *self.c.entry(k.into()).or_insert(0) += n;
     }
     fn ev(&mut self) {
         self.evals += 1;
@@ -490,6 +501,9 @@ fn check_value(env: &Env, v: &Value, lc: &mut Local) {
             }
         }
     }
+
+    // 4c. the same value through every holder (references, records, tuples)
+    check_holders(env, v, &c, &expect_canon, lc);
 
     // 5. whole messages
     let mut embedded: Vec<Vec<u8>> = Vec::new();
@@ -1076,6 +1090,371 @@ fn check_variants(env: &Env, v: &Value, c: &Vec<u8>, canon: &Vec<u8>, lc: &mut L
         Ok(Ok(())) => {}
         Ok(Err(e)) => env.viol(format!("C05|{t}|typed-extra|{}", e.split(": ").next().unwrap_or("")), format!("{}: {e}", v.desc), case()),
         Err(e) => env.viol(format!("C05|{t}|typed-extra|panic|{}", panic_class(&e)), format!("{}: {e}", v.desc), case()),
+    }
+}
+
+//------------ holders: the way the value is held when the traits are used -----------
+//
+// The record data traits are implemented for the concrete types, for the two
+// enums, and - through blanket impls - for references to all of them;
+// `Record<N, D>` and the `ComposeRecord` tuples hold the data by value or by
+// reference and forward to it (the tuples re-wrap it as `Record<&N, &D>`).
+// Which impl runs is decided by the type the caller holds, so every value is
+// sent through every holder. Oracle: each route reports the record type and
+// the lengths of the direct call and writes the octets of the direct call
+// (which step 1 compared with the reference encoding); the canonical routes
+// write the harness's own canonical expectation; records are the owner
+// (lower-cased in the canonical form), type, class, TTL, RDLENGTH and those
+// octets.
+
+const HOLDER_OWNER: &[u8] = b"\x03WwW\x07ExAmple\x00";
+const HOLDER_OWNER_LOWER: &[u8] = b"\x03www\x07example\x00";
+const HOLDER_TTL: u32 = 0x0102_0304;
+/// not IN, so that the class-less tuples (which say IN) are told apart
+const HOLDER_CLASS: u16 = 3;
+
+/// What the direct calls on the owned enum value gave, plus the expected
+/// canonical form.
+struct HoldExpect<'a> {
+    rtype: u16,
+    rdlen: (Option<u16>, Option<u16>),
+    plain: &'a [u8],
+    canon: &'a [u8],
+    /// the reference with all embedded names lower-cased (to name the cause)
+    lowered: Vec<u8>,
+    /// `[class CH record, canonical record, class IN record]` on a plain target
+    rec: [Vec<u8>; 3],
+    /// the record composed from `Record<Name, AllRecordData>` on a
+    /// compressing target (differential reference for the other holders)
+    rec_static: Vec<u8>,
+    full: bool,
+    /// output buffer shared by all routes of the value
+    buf: std::cell::RefCell<Vec<u8>>,
+}
+
+fn holder_record(owner: &[u8], rtype: u16, class: u16, rdata: &[u8]) -> Vec<u8> {
+    let mut r = owner.to_vec();
+    r.extend_from_slice(&rtype.to_be_bytes());
+    r.extend_from_slice(&class.to_be_bytes());
+    r.extend_from_slice(&HOLDER_TTL.to_be_bytes());
+    r.extend_from_slice(&(rdata.len() as u16).to_be_bytes());
+    r.extend_from_slice(rdata);
+    r
+}
+
+fn canon_cause(got: &[u8], e: &HoldExpect) -> &'static str {
+    if e.canon != e.plain && got == e.plain {
+        "names-not-lowercased"
+    } else if e.canon == e.plain && got == e.lowered.as_slice() {
+        "names-lowercased-but-type-not-listed"
+    } else {
+        "differs-from-expected-canonical-form"
+    }
+}
+
+/// The trait methods of `R` itself - `R` is what the caller holds: a value
+/// type, `&T`, `&&T`, an unsized `Opt<[u8]>`.
+fn probe<R: ComposeRecordData + ?Sized>(route: &str, r: &R, e: &HoldExpect) -> Result<u64, String> {
+    if <R as RecordData>::rtype(r).to_int() != e.rtype {
+        return Err(format!("{route}|rtype|differs-from-direct-call: {}", <R as RecordData>::rtype(r).to_int()));
+    }
+    let l = (<R as ComposeRecordData>::rdlen(r, false), <R as ComposeRecordData>::rdlen(r, true));
+    if l != e.rdlen {
+        return Err(format!("{route}|rdlen|differs-from-direct-call: {l:?} vs {:?}", e.rdlen));
+    }
+    // one output buffer per value (large RDATA: no allocation per route)
+    let mut buf = e.buf.borrow_mut();
+    let t: &mut Vec<u8> = &mut buf;
+    t.clear();
+    <R as ComposeRecordData>::compose_rdata(r, t).map_err(|_| "append")?;
+    if t != e.plain {
+        return Err(format!("{route}|compose_rdata|differs-from-direct-call: {}", first_diff(t, e.plain)));
+    }
+    t.clear();
+    <R as ComposeRecordData>::compose_canonical_rdata(r, t).map_err(|_| "append")?;
+    if t != e.canon {
+        return Err(format!("{route}|compose_canonical_rdata|{}: {}", canon_cause(t, e), first_diff(t, e.canon)));
+    }
+    t.clear();
+    <R as ComposeRecordData>::compose_len_rdata(r, t).map_err(|_| "append")?;
+    if t.len() < 2 || t[..2] != (e.plain.len() as u16).to_be_bytes() || &t[2..] != e.plain {
+        return Err(format!("{route}|compose_len_rdata|differs-from-length-plus-direct-call: {} octets", t.len()));
+    }
+    t.clear();
+    <R as ComposeRecordData>::compose_canonical_len_rdata(r, t).map_err(|_| "append")?;
+    if t.len() < 2 || t[..2] != (e.canon.len() as u16).to_be_bytes() || &t[2..] != e.canon {
+        let cause = if t.len() >= 2 { canon_cause(&t[2..], e) } else { "differs-from-expected-canonical-form" };
+        return Err(format!("{route}|compose_canonical_len_rdata|{cause}: {} octets", t.len()));
+    }
+    Ok(1)
+}
+
+/// How a record is written in `record_routes`.
+#[derive(Clone, Copy)]
+enum RecOp {
+    Compose,
+    Canonical,
+    /// `ComposeRecord::compose_record` of the holder itself
+    Trait,
+}
+
+/// `d` inside `Record<N, D>`, `Record<&N, &D>`, `&Record`, the four
+/// `ComposeRecord` tuples (and references to them) and the `From` impls that
+/// turn tuples into records. `D` is a value type or a reference; the value is
+/// handed from holder to holder and returned.
+fn record_routes<D: ComposeRecordData>(route: &str, d: D, e: &HoldExpect, core: bool) -> Result<(D, u64), String> {
+    use domain::base::record::ComposeRecord;
+    let owner: VN = Name::from_octets(HOLDER_OWNER.to_vec()).map_err(|e| e.to_string())?;
+    let class = Class::from_int(HOLDER_CLASS);
+    let ttl = Ttl::from_secs(HOLDER_TTL);
+    let mut n = 0u64;
+    // expectation `idx`: 0 = class CH record, 1 = canonical record, 2 = class IN record
+    let mut same = |what: &str, op: &str, got: &[u8], idx: usize| -> Result<(), String> {
+        n += 1;
+        if got == e.rec[idx].as_slice() {
+            return Ok(());
+        }
+        let hdr = HOLDER_OWNER.len() + 10;
+        let cause = if idx == 1 && got.len() > hdr && got[..HOLDER_OWNER.len()] == *HOLDER_OWNER_LOWER {
+            canon_cause(&got[hdr..], e)
+        } else if idx == 1 {
+            "differs-from-expected-canonical-record"
+        } else {
+            "differs-from-header-plus-direct-call"
+        };
+        Err(format!("{route}/{what}|{op}|{cause}: {}", first_diff(got, &e.rec[idx])))
+    };
+    /// Record methods into the shared buffer.
+    fn rec_into<'e, N: domain::base::name::ToName, D: ComposeRecordData>(rec: &Record<N, D>, op: RecOp, e: &'e HoldExpect) -> Result<std::cell::RefMut<'e, Vec<u8>>, String> {
+        let mut buf = e.buf.borrow_mut();
+        buf.clear();
+        let t: &mut Vec<u8> = &mut buf;
+        match op {
+            RecOp::Compose => rec.compose(t),
+            RecOp::Canonical => rec.compose_canonical(t),
+            RecOp::Trait => <Record<N, D> as ComposeRecord>::compose_record(rec, t),
+        }
+        .map_err(|_| "append".to_string())?;
+        Ok(buf)
+    }
+    /// `ComposeRecord` of any holder `T` into the shared buffer.
+    fn trait_into<'e, T: ComposeRecord + ?Sized>(t: &T, e: &'e HoldExpect) -> Result<std::cell::RefMut<'e, Vec<u8>>, String> {
+        let mut buf = e.buf.borrow_mut();
+        buf.clear();
+        <T as ComposeRecord>::compose_record(t, &mut *buf).map_err(|_| "append".to_string())?;
+        Ok(buf)
+    }
+    /// ... and on a compressing target: the same octets as the record that
+    /// holds the owned enum.
+    fn static_same<T: ComposeRecord + ?Sized>(route: &str, what: &str, t: &T, e: &HoldExpect) -> Result<(), String> {
+        let s = compose_record_static(t, e.plain.len() + 40)?;
+        if s != e.rec_static {
+            return Err(format!("{route}/{what}|compose_record-on-compressing-target|differs-from-record-holding-the-owned-enum: {}", first_diff(&s, &e.rec_static)));
+        }
+        Ok(())
+    }
+
+    // Record<N, D>
+    let rec = Record::new(owner.clone(), class, ttl, d);
+    same("Record<N,D>", "compose", &rec_into(&rec, RecOp::Compose, e)?, 0)?;
+    same("Record<N,D>", "compose_canonical", &rec_into(&rec, RecOp::Canonical, e)?, 1)?;
+    if rec.rtype().to_int() != e.rtype {
+        return Err(format!("{route}/Record<N,D>|rtype|differs-from-direct-call"));
+    }
+    if core {
+        return Ok((rec.into_data(), n));
+    }
+    same("Record<N,D>", "compose_record", &rec_into(&rec, RecOp::Trait, e)?, 0)?;
+    same("&Record<N,D>", "compose_record", &trait_into(&&rec, e)?, 0)?;
+    static_same(route, "Record<N,D>", &rec, e)?;
+    // Record<&N, &D>: what the tuples build internally
+    {
+        let inner = Record::new(&owner, class, ttl, rec.data());
+        same("Record<&N,&D>", "compose", &rec_into(&inner, RecOp::Compose, e)?, 0)?;
+        same("Record<&N,&D>", "compose_canonical", &rec_into(&inner, RecOp::Canonical, e)?, 1)?;
+        same("&Record<&N,&D>", "compose_record", &trait_into(&&inner, e)?, 0)?;
+        static_same(route, "Record<&N,&D>", &inner, e)?;
+    }
+    let d = rec.into_data();
+
+    // (N, Class, u32, D)
+    let tup = (owner.clone(), class, HOLDER_TTL, d);
+    same("(N,Class,u32,D)", "compose_record", &trait_into(&tup, e)?, 0)?;
+    same("&(N,Class,u32,D)", "compose_record", &trait_into(&&tup, e)?, 0)?;
+    let rec: Record<VN, D> = Record::from(tup);
+    same("Record::from((N,Class,u32,D))", "compose_canonical", &rec_into(&rec, RecOp::Canonical, e)?, 1)?;
+    let d = rec.into_data();
+
+    // (N, Class, Ttl, D)
+    let tup = (owner.clone(), class, ttl, d);
+    same("(N,Class,Ttl,D)", "compose_record", &trait_into(&tup, e)?, 0)?;
+    same("&(N,Class,Ttl,D)", "compose_record", &trait_into(&&tup, e)?, 0)?;
+    static_same(route, "(N,Class,Ttl,D)", &tup, e)?;
+    let rec: Record<VN, D> = Record::from(tup);
+    same("Record::from((N,Class,Ttl,D))", "compose", &rec_into(&rec, RecOp::Compose, e)?, 0)?;
+    let d = rec.into_data();
+
+    // (N, u32, D): class IN
+    let tup = (owner.clone(), HOLDER_TTL, d);
+    same("(N,u32,D)", "compose_record", &trait_into(&tup, e)?, 2)?;
+    same("&(N,u32,D)", "compose_record", &trait_into(&&tup, e)?, 2)?;
+    let rec: Record<VN, D> = Record::from(tup);
+    same("Record::from((N,u32,D))", "compose", &rec_into(&rec, RecOp::Compose, e)?, 2)?;
+    let d = rec.into_data();
+
+    // (N, Ttl, D): class IN
+    let tup = (owner, ttl, d);
+    same("(N,Ttl,D)", "compose_record", &trait_into(&tup, e)?, 2)?;
+    same("&(N,Ttl,D)", "compose_record", &trait_into(&&tup, e)?, 2)?;
+    let (_, _, d) = tup;
+    Ok((d, n))
+}
+
+fn compose_record_static<T: domain::base::record::ComposeRecord + ?Sized>(t: &T, cap: usize) -> Result<Vec<u8>, String> {
+    let mut out = StaticCompressor::new(Vec::with_capacity(cap));
+    <T as domain::base::record::ComposeRecord>::compose_record(t, &mut out).map_err(|_| "append".to_string())?;
+    Ok(out.into_target())
+}
+
+/// All holders of one representation `D` of the value.
+fn holder_routes<D: ComposeRecordData + Clone>(level: &str, d: &D, e: &HoldExpect, containers: bool) -> Result<u64, String> {
+    let mut n = 0;
+    n += probe(&format!("{level}/T"), d, e)?;
+    n += probe::<&D>(&format!("{level}/&T"), &d, e)?;
+    n += probe::<&&D>(&format!("{level}/&&T"), &&d, e)?;
+    n += record_routes(&format!("{level}/by-reference"), d, e, !containers)?.1;
+    if containers {
+        n += record_routes(&format!("{level}/by-value"), d.clone(), e, false)?.1;
+        n += record_routes(&format!("{level}/by-reference-to-reference"), &d, e, false)?.1;
+    }
+    Ok(n)
+}
+
+/// Run `$body` with `$x` bound to a reference to the payload of the enum.
+macro_rules! with_inner {
+    ($e:expr, $x:ident => $body:expr, $none:expr) => {
+        match $e {
+            Rd::A($x) => $body,
+            Rd::Cname($x) => $body,
+            Rd::Hinfo($x) => $body,
+            Rd::Mb($x) => $body,
+            Rd::Md($x) => $body,
+            Rd::Mf($x) => $body,
+            Rd::Mg($x) => $body,
+            Rd::Minfo($x) => $body,
+            Rd::Mr($x) => $body,
+            Rd::Mx($x) => $body,
+            Rd::Ns($x) => $body,
+            Rd::Ptr($x) => $body,
+            Rd::Soa($x) => $body,
+            Rd::Txt($x) => $body,
+            Rd::Null($x) => $body,
+            Rd::Aaaa($x) => $body,
+            Rd::Caa($x) => $body,
+            Rd::Cdnskey($x) => $body,
+            Rd::Cds($x) => $body,
+            Rd::Dname($x) => $body,
+            Rd::Dnskey($x) => $body,
+            Rd::Rrsig($x) => $body,
+            Rd::Nsec($x) => $body,
+            Rd::Ds($x) => $body,
+            Rd::Ipseckey($x) => $body,
+            Rd::Naptr($x) => $body,
+            Rd::Nsec3($x) => $body,
+            Rd::Nsec3param($x) => $body,
+            Rd::Openpgpkey($x) => $body,
+            Rd::Rp($x) => $body,
+            Rd::Srv($x) => $body,
+            Rd::Sshfp($x) => $body,
+            Rd::Svcb($x) => $body,
+            Rd::Https($x) => $body,
+            Rd::Tlsa($x) => $body,
+            Rd::Tsig($x) => $body,
+            Rd::Zonemd($x) => $body,
+            Rd::Opt($x) => $body,
+            Rd::Unknown($x) => $body,
+            _ => $none,
+        }
+    };
+}
+
+fn check_holders(env: &Env, v: &Value, c: &Vec<u8>, canon: &Vec<u8>, lc: &mut Local) {
+    let t = type_label(v.mnemonic);
+    let case = || env.value_case(v);
+    // (the record around RDATA close to 65535 octets is longer than a message
+    // may be; composing it into a plain octets target is defined all the same)
+    // Route sets. Core (every representation of every value, both tiers):
+    // T / &T / &&T and Record<N,&T>::compose / compose_canonical. Containers
+    // (records by value / of && / all tuples / From / compressing target):
+    // thorough tier: every representation of every value; quick tier: the
+    // AllRecordData and concrete-type representations of values with RDATA
+    // up to 512 octets (the containers are generic over the data type: what
+    // they do with it does not depend on the representation).
+    let all = !env.ctx.quick();
+    let full = all || c.len() <= 512;
+    let levels: &mut [(&str, u64)] = &mut [("enum-all", 0), ("enum-zone", 0), ("concrete", 0), ("parsed", 0), ("opt-slice", 0)];
+    let r = guard(|| -> Result<(), String> {
+        let rec_static = if full {
+            let owned = Record::new(Name::from_octets(HOLDER_OWNER.to_vec()).map_err(|e| e.to_string())?, Class::from_int(HOLDER_CLASS), Ttl::from_secs(HOLDER_TTL), v.data.clone());
+            compose_record_static(&owned, c.len() + 40)?
+        } else {
+            Vec::new()
+        };
+        let e = HoldExpect {
+            rtype: v.rtype,
+            rdlen: (v.data.rdlen(false), v.data.rdlen(true)),
+            plain: c,
+            canon,
+            lowered: lowercase_names(&v.wire, &v.names),
+            rec: [
+                holder_record(HOLDER_OWNER, v.rtype, HOLDER_CLASS, c),
+                holder_record(HOLDER_OWNER_LOWER, v.rtype, HOLDER_CLASS, canon),
+                holder_record(HOLDER_OWNER, v.rtype, 1, c),
+            ],
+            rec_static,
+            full,
+            buf: std::cell::RefCell::new(Vec::with_capacity(c.len() + 40)),
+        };
+        levels[0].1 = holder_routes("AllRecordData", &v.data, &e, full)?;
+        let z: Result<rgen::ZRd, Rd> = v.data.clone().into();
+        if let Ok(z) = z {
+            levels[1].1 = holder_routes("ZoneRecordData", &z, &e, all)?;
+        }
+        levels[2].1 = with_inner!(&v.data, x => holder_routes("concrete-type", x, &e, full)?, 0);
+        // the value as the parser hands it out (octets and names borrowed)
+        let mut parser = Parser::from_ref(c.as_slice());
+        let parsed = PRd::parse_any_rdata(Rtype::from_int(v.rtype), &mut parser).map_err(|e| format!("parsed|parse_any_rdata|rejected: {e}"))?;
+        levels[3].1 = holder_routes("parsed-AllRecordData", &parsed, &e, all)?;
+        // OPT held as an unsized slice and as a borrowed view
+        if let Rd::Opt(o) = &v.data {
+            let s: &Opt<[u8]> = Opt::from_slice(c.as_slice()).map_err(|e| format!("Opt<[u8]>|from_slice|rejected: {e}"))?;
+            levels[4].1 += probe::<Opt<[u8]>>("Opt<[u8]>/T", s, &e)?;
+            let view = o.for_slice_ref();
+            levels[4].1 += holder_routes("Opt::for_slice_ref", &view, &e, full)?;
+            let view = s.for_slice_ref();
+            levels[4].1 += probe("Opt<[u8]>::for_slice_ref/T", &view, &e)?;
+        }
+        Ok(())
+    });
+    lc.ev();
+    match r {
+        Ok(Ok(())) => {
+            lc.inc(format!("{}:holders-ok", v.mnemonic));
+            if full {
+                lc.inc(format!("{}:holders-full", v.mnemonic));
+            }
+            for (level, n) in levels.iter() {
+                if *n > 0 {
+                    lc.add(format!("{}:holder-routes[{level}]", v.mnemonic), *n);
+                    lc.add(format!("{}:holder-routes", v.mnemonic), *n);
+                }
+            }
+            if levels[2].1 == 0 {
+                lc.inc(format!("{}:holders-concrete-type-not-dispatched", v.mnemonic));
+            }
+        }
+        Ok(Err(e)) => env.viol(format!("C05|{t}|holder|{}", e.split(": ").next().unwrap_or("")), format!("{}: {e}", v.desc), case()),
+        Err(e) => env.viol(format!("C05|{t}|holder|panic|{}", panic_class(&e)), format!("{}: {e}", v.desc), case()),
     }
 }
 
@@ -2793,6 +3172,19 @@ fn main() {
         let g = |k: &str| c.get(k).cloned().unwrap_or(0);
         println!("{:<12} {:>9} {:>9} {:>9} {:>12} {:>9}", t, g("candidates") + g("cases"), g("generated") + g("accepted"), g("refused") + g("rejected"), g("roundtripped"), g("message-roundtrips"));
     }
+    let holders = json!({
+                "what": "every value that completed the round trip, held as T / &T / &&T (blanket impls of RecordData and ComposeRecordData for references), inside Record<N,D> and Record<&N,&D> (compose, compose_canonical, ComposeRecord for the record and for &record), inside the four ComposeRecord tuples and references to them, through the From impls from tuples to Record; D by value, by reference (and, full set, by reference to a reference); for T = AllRecordData, ZoneRecordData, the concrete type, the parsed AllRecordData<&[u8], ParsedName>, and for OPT the unsized Opt<[u8]> and the for_slice_ref view. Every route must report the rtype and rdlen of the direct call, write the octets of the direct call (length-prefixed forms: RDLENGTH + those octets) and, for the canonical routes, the harness's canonical expectation; records = owner (mixed case; lower-cased in the canonical form) + type + class + TTL + RDLENGTH + RDATA; on a compressing target the same octets as Record<Name, AllRecordData>",
+                "route_sets": "core (both tiers, every representation of every value): T / &T / &&T and Record<N,&T>::compose / compose_canonical; containers (records holding D by value and &&D, &Record, the four tuples and references to them, From, compressing target): thorough tier everywhere, quick tier for the AllRecordData and concrete-type representations of values with RDATA up to 512 octets",
+                "values_with_container_routes": sum(":holders-full"),
+                "values_ok": sum(":holders-ok"),
+                "routes_checked": sum(":holder-routes"),
+                "routes_enum_all": sum(":holder-routes[enum-all]"),
+                "routes_enum_zone": sum(":holder-routes[enum-zone]"),
+                "routes_concrete_type": sum(":holder-routes[concrete]"),
+                "routes_parsed": sum(":holder-routes[parsed]"),
+                "routes_opt_slice": sum(":holder-routes[opt-slice]"),
+                "values_concrete_type_not_dispatched": sum(":holders-concrete-type-not-dispatched"),
+            });
     ctx.finish(
         json!({
             "evaluations": m.evals,
@@ -2827,6 +3219,7 @@ fn main() {
             "options_roundtripped": sum_in("OPTION-", ":roundtripped"),
             "values_accepted_without_wire_representation": sum(":accepted-unrepresentable"),
             "values_zone_dispatch_roundtripped": sum(":zone-roundtripped"),
+            "holders": holders,
             "per_type": per_type,
             "canonical_lowercase_table": CANONICAL_LOWERCASE,
             "may_compress_table": MAY_COMPRESS,
